@@ -93,6 +93,15 @@ def compute_once(case, seed, optimize, setting=None, subset_index=None):
                 return dict(label="build", phase="BUILD", exc=type(e).__name__, msg=str(e)[:200]), 1
             arrs = [x for x, _ in built]
             exp = [v for _, v in built]
+            mid_target = None
+            if case.get("store_mid"):
+                # the first requested term is stored lazily into a user target and only an array DERIVED from the stored
+                # array is computed: the target must be written the same whether or not the graph is optimized
+                import cubed.array_api as xp
+                mid_target = w.store("midtgt")
+                (stored,) = cubed.store([arrs[0]], [mid_target], compute=False)
+                arrs = [xp.negative(stored)] + arrs[1:]
+                exp = [-np.asarray(exp[0])] + exp[1:]
             dag = nx.compose_all([a._plan.dag for a in arrs])
             op_names = [n for n in nx.topological_sort(dag) if str(n).startswith("op-")]
             if not optimize:
@@ -126,6 +135,13 @@ def compute_once(case, seed, optimize, setting=None, subset_index=None):
                         mat.append(f"requested array {a.name}: stored contents differ from the returned value")
                 except Exception as e:
                     mat.append(f"requested array {a.name} is not in storage after compute ({type(e).__name__})")
+            if mid_target is not None:
+                try:
+                    tv = np.asarray(zarr.open_array(mid_target.with_read_only(True), mode="r")[...])
+                    if not np.array_equal(tv, -got[0], equal_nan=True):
+                        mat.append("the store target in the middle of the graph holds other values than the stored array")
+                except Exception as e:
+                    mat.append(f"the store target in the middle of the graph was not written ({type(e).__name__})")
             nfused = sum(1 for n, d in ex.dag.nodes(data=True) if "fused" in str(getattr(d.get("pipeline"), "name", "")))
             return dict(label=label, phase="OK", got=got, exp=exp, mat=mat, nops=len(ex.ops), nfused=nfused, total_ops=len(op_names)), len(fns)
         finally:
@@ -204,6 +220,27 @@ def run(ctx):
         for p in pc:
             if p["nodes"] <= 2:
                 p["_full"] = True
+    # hand-written deeper shapes (3-5 op nodes) that the closure only reaches in the thorough tier: a fused pair whose first op has two
+    # inputs, one of them produced by another (unfusable-for-legacy) multi-input op; reductions over multi-input chains; shared sub-terms
+    A_, B_, Z_ = "a", "b", "z"
+    deep = [
+        [["neg", ["sub", Z_, ["sub", A_, B_]]]],
+        [["neg", ["sub", ["sub", A_, B_], Z_]]],
+        [["neg", ["sub", Z_, ["sub", ["neg", A_], B_]]]],
+        [["T", ["sub", ["neg", Z_], ["sub", A_, ["neg", B_]]]]],
+        [["sum0", ["sub", A_, ["sub", Z_, B_]]]],
+        [["mean1", ["sub", ["sub", A_, B_], ["neg", Z_]]]],
+        [["neg", ["sub", ["slice1", A_], ["slice1", ["sub", Z_, B_]]]]],
+        [["sub", ["neg", ["sub", A_, B_]], ["T", ["T", ["sub", A_, B_]]]]],
+        [["neg", ["concat0", ["sub", A_, Z_], ["neg", ["sub", Z_, A_]]]]],
+        [["neg", ["sub", ["unstack0", ["sub", A_, Z_]], ["unstack1", ["sub", A_, Z_]]]]],
+        [["neg", ["sub", Z_, ["sub", A_, B_]]], ["sub", A_, B_]],
+    ]
+    pc = pc + [dict(op="program", terms=t, nodes=4, _full=True) for t in deep]
+    # store targets in the middle of the graph: every 1-node program and a slice of the 2-node programs, stored then negated
+    mids = [dict(p, store_mid=True) for p in pc if p["nodes"] == 1 and len(p["terms"]) == 1]
+    mids += [dict(p, store_mid=True) for p in pc if p["nodes"] == 2 and len(p["terms"]) == 1][:: (9 if ctx.tier == "quick" else 2)]
+    pc = pc + mids
     total = sweep(ctx, __name__, pc, chunksize=12)
     ctx.set("evaluations", total["evaluations"])
     ctx.set("distinct_nontrivial", total["nontrivial"])
